@@ -277,7 +277,7 @@ func diffCodec(w *bufio.Writer, n int, seed int64) {
 	}
 	typedRoundTrips(w, n)
 	// a payload that cannot be encoded is rejected at submission with no effect
-	for k := 0; k < 4; k++ {
+	for k := 0; k < 8; k++ {
 		ok, enq, items, sub, pend := varmq.VerifAddUnencodable(k)
 		fmt.Fprintf(w, "D 0 unencodable %d => r:%v,%d,%d,%d,%d # -\n", k, ok, enq, items, sub, pend)
 	}
